@@ -780,9 +780,17 @@ def rule_serde_shape(fx, col):
         return
     calls = [(bb, t) for bb, t in s.calls(include_cleanup=False)]
     loads = [(bb, t) for bb, t in calls if U.callee_name(t) in ('load', 'load_full') and t['callee'].get('krate') == 'arc_swap']
-    ser = [(bb, t) for bb, t in calls if s.origins(t['args'][-1]) == {('arg', 2)} or any(s.origins(a) == {('arg', 2)} for a in t['args'])]
+    ser = [(bb, t) for bb, t in calls if any(s.origins(a) == {('arg', 2)} for a in t['args'])]
     ok = len(loads) == 1 and len(ser) == 1
     col.add('SERDE-SHAPE', 'serialize|one load, one use of the serializer', ok, '%d load(s), %d call(s) receiving the serializer' % (len(loads), len(ser)))
+    if len(loads) == 1:
+        # the value is borrowed by the CONTAINER's load (its own strategy `S`), not by a strategy picked here: a guard of another
+        # strategy is not honoured by this container's writers (RwLock<()> writers never look at debts)
+        lt = loads[0][1]
+        own = 'ArcSwapAny' in (lt['callee'].get('pretty') or '') and bool(lt['args']) and s.origins(lt['args'][0]) == {('arg', 1)}
+        col.add('SERDE-SHAPE', 'serialize|borrowed by the container\'s own load', own,
+                'the one load is `%s` on %s (must be ArcSwapAny::load / load_full on self, which dispatches on the container\'s strategy)'
+                % (lt['callee'].get('pretty'), sorted(s.origins(lt['args'][0])) if lt['args'] else '-'), s.loc(loads[0][0]))
     if ok:
         bb, t = ser[0]
         c = t['callee']
